@@ -203,7 +203,7 @@ def classify(fl, kf=None):
         # by construction: a blank before a newline (or a bare CR) outside literal/comment tokens survives
         # SerializerUnicode only where SPLIT_REGEX regards the newline as quoted
         return ids.get('serializer-quote-desync')
-    if cls == 'exception:IndexError' and re.search(r'\(\s*(as|::)\s*\)', text, re.I):
+    if cls == 'exception:IndexError' and re.search(r'\(\s*(as|::|:=)\s*\)', text, re.I):
         return ids.get('stripws-parenthesis-swallowed')
     if cls in ids:
         return ids[cls]
